@@ -600,15 +600,11 @@ class World:
             return
         self.model[p2][jid] = self.model[p].pop(jid)
         self.stale_cache_ids[p].add(jid)
-        self._mark_dir_gone(p, jid, rec, group_follows=False)
-        # the moved handle now lives in p2; its former shallow copies are released
-        for r in list(self._group(rec)):
-            if r is not rec:
-                self.handles.remove(r)
-        self.ngrp += 1
-        rec["grp"] = self.ngrp
-        rec["p"] = p2
-        rec["docid"] = None
+        self._mark_dir_gone(p, jid, rec, group_follows=True)
+        # the moved handle now lives in p2, and so do its shallow copies (C04: every live copy follows)
+        for r in self._group(rec):
+            r["p"] = p2
+            r["docid"] = None
 
     def op_clone(self, i, p2):
         rec = self._h(i)
